@@ -36,7 +36,7 @@ Notation V := Fixed.
 
 (* requests of a destination [p] only touch p's own keys *)
 Definition own_key (p : prefix) (k : option N * prefix) : Prop :=
-  k = (None, p) \/ (fst p = 1 /\ exists id, k = (Some id, (2, snd p))).
+  k = (None, p) \/ (is_vpn p = true /\ exists id, k = (Some id, local_pfx p)).
 Definition own_req (p : prefix) (r : req) : Prop :=
   match r with
   | Apply t q _ => own_key p (t, q)
@@ -62,16 +62,16 @@ Definition vrf_reqs (fl : flags) (p : prefix) (ch : change) (nh : list N) : list
                          | b :: _ => can_import (snd vr) (e_attr b)
                          | [] => false
                          end in
-       [Apply (Some (fst vr)) (2, snd p) (if importable then nh else [])]) (c_vrfs c).
+       [Apply (Some (fst vr)) (local_pfx p) (if importable then nh else [])]) (c_vrfs c).
 
 Lemma distribute_fixed fl p ch :
   distribute c V fl p ch =
   if negb (ch_bc ch || ch_ac ch) then [] else
   let nh := nhs_of (ecmp_code c fl (ch_cur ch)) in
-  Apply None p nh :: (if fst p =? 1 then vrf_reqs fl p ch nh else []).
+  Apply None p nh :: (if is_vpn p then vrf_reqs fl p ch nh else []).
 Proof. reflexivity. Qed.
 
-Lemma vrf_reqs_own fl p ch nh : fst p = 1 -> Forall (own_req p) (vrf_reqs fl p ch nh).
+Lemma vrf_reqs_own fl p ch nh : is_vpn p = true -> Forall (own_req p) (vrf_reqs fl p ch nh).
 Proof.
   intro Hp. unfold vrf_reqs. apply Forall_forall. intros r Hr.
   apply in_flat_map in Hr. destruct Hr as [vr [_ Hr]].
@@ -83,7 +83,7 @@ Lemma distribute_own fl p ch : Forall (own_req p) (distribute c V fl p ch).
 Proof.
   rewrite distribute_fixed. destruct (negb (ch_bc ch || ch_ac ch)); auto.
   cbn zeta. constructor. cbn. left; auto.
-  destruct (fst p =? 1) eqn:E; auto. apply vrf_reqs_own. lia.
+  destruct (is_vpn p) eqn:E; auto. apply vrf_reqs_own. auto.
 Qed.
 
 Lemma distribute_opt_own fl p ch : Forall (own_req p) (distribute_opt c V fl p ch).
@@ -115,7 +115,7 @@ Lemma chg_ok_main fl fl' p d d' ch :
 Proof.
   destruct ch as [x|]; cbn [chg_ok distribute_opt fold_left].
   - intros [H1 H2]. rewrite distribute_fixed, H2. cbn [negb fold_left fib_step].
-    rewrite fkey_eqb_refl. destruct (fst p =? 1); cbn [fold_left]; rewrite ?vrf_reqs_main;
+    rewrite fkey_eqb_refl. destruct (is_vpn p); cbn [fold_left]; rewrite ?vrf_reqs_main;
       unfold code_nhs; rewrite H1; auto.
   - intros [H1 H2]. unfold code_nhs. rewrite H1. rewrite (ecmp_code_ext c fl fl'); auto.
 Qed.
@@ -131,8 +131,8 @@ Definition code_vrf (fl : flags) (imp : list N) (d : dest) : list N :=
 (* the FIB keys a destination is responsible for, with the value the code keeps there *)
 Definition tracked (p : prefix) (k : option N * prefix) (valf : flags -> dest -> list N) : Prop :=
   (k = (None, p) /\ valf = code_nhs) \/
-  (fst p = 1 /\ NoDup (map fst (c_vrfs c)) /\
-   exists id imp, In (id, imp) (c_vrfs c) /\ id <> 0 /\ k = (Some id, (2, snd p)) /\
+  (is_vpn p = true /\ NoDup (map fst (c_vrfs c)) /\
+   exists id imp, In (id, imp) (c_vrfs c) /\ id <> 0 /\ k = (Some id, local_pfx p) /\
                   valf = fun fl d => code_vrf fl imp d).
 
 Lemma tracked_own p k valf : tracked p k valf -> own_key p k.
@@ -140,16 +140,27 @@ Proof.
   intros [[-> _]|[Hp [_ [id [imp [_ [_ [-> _]]]]]]]]; [left; auto | right; split; auto; eexists; eauto].
 Qed.
 
-Lemma tracked_inj p q k valf : tracked p k valf -> own_key q k -> q = p.
+(* no other VPN prefix seen so far maps to the same VRF-local prefix (another RD) *)
+Definition uniq (p : prefix) (ks : list prefix) : Prop :=
+  forall q, In q ks -> is_vpn q = true -> local_pfx q = local_pfx p -> q = p.
+Definition kcond (p : prefix) (k : option N * prefix) (ks : list prefix) : Prop :=
+  k = (None, p) \/ uniq p ks.
+
+Lemma tracked_inj p q k valf : tracked p k valf -> own_key q k ->
+  (k = (None, p) \/ (is_vpn q = true -> local_pfx q = local_pfx p -> q = p)) -> q = p.
 Proof.
-  intros [[-> _]|[Hp [_ [id [imp [_ [_ [-> _]]]]]]]] [H|[Hq [id' H]]]; inversion H; subst; auto.
-  destruct p, q; cbn [fst snd] in *. subst. auto.
+  intros HT HO HC. destruct HO as [HO|[Hq [id' HO]]].
+  - destruct HT as [[-> _]|[Hp [_ [id [imp [_ [_ [-> _]]]]]]]]; inversion HO; auto.
+  - destruct HT as [[-> _]|[Hp [_ [id [imp [_ [_ [-> _]]]]]]]]; [discriminate|].
+    destruct HC as [HC|HC]; [discriminate|]. apply HC; auto.
+    assert (HL : forall a b : prefix, (Some id, a) = (Some id', b) -> b = a) by (intros a b HH; inversion HH; auto).
+    apply HL. exact HO.
 Qed.
 
 Lemma vrf_fold_absent (F : N * list N -> list N) l id i cur :
   ~ In id (map fst l) ->
-  fold_left (fib_step (Some id, (2, i)))
-    (flat_map (fun vr : N * list N => if fst vr =? 0 then [] else [Apply (Some (fst vr)) (2, i) (F vr)]) l) cur = cur.
+  fold_left (fib_step (Some id, i))
+    (flat_map (fun vr : N * list N => if fst vr =? 0 then [] else [Apply (Some (fst vr)) i (F vr)]) l) cur = cur.
 Proof.
   revert cur. induction l as [|vr l IH]; cbn [flat_map map In fold_left]; auto.
   intros cur Hn. rewrite fold_fib_app, IH by tauto.
@@ -160,8 +171,8 @@ Qed.
 
 Lemma vrf_fold_present (F : N * list N -> list N) l id imp i cur :
   NoDup (map fst l) -> In (id, imp) l -> id <> 0 ->
-  fold_left (fib_step (Some id, (2, i)))
-    (flat_map (fun vr : N * list N => if fst vr =? 0 then [] else [Apply (Some (fst vr)) (2, i) (F vr)]) l) cur
+  fold_left (fib_step (Some id, i))
+    (flat_map (fun vr : N * list N => if fst vr =? 0 then [] else [Apply (Some (fst vr)) i (F vr)]) l) cur
   = F (id, imp).
 Proof.
   revert cur. induction l as [|vr l IH]; cbn [flat_map map In fold_left]; try tauto.
@@ -179,13 +190,13 @@ Proof.
   - apply chg_ok_main; auto.
   - destruct ch as [x|]; cbn [chg_ok distribute_opt fold_left] in *.
     + destruct HC as [H1 H2]. rewrite distribute_fixed, H2. cbn [negb fold_left fib_step].
-      assert (fkey_eqb (None, p) (Some id, (2, snd p)) = false) as -> by reflexivity.
-      assert (fst p =? 1 = true) as -> by lia.
+      assert (fkey_eqb (None, p) (Some id, local_pfx p) = false) as -> by reflexivity.
+      rewrite Hp.
       unfold vrf_reqs.
       rewrite (vrf_fold_present
                  (fun vr => if match ch_cur x with b :: _ => can_import (snd vr) (e_attr b) | [] => false end
                             then nhs_of (ecmp_code c fl' (ch_cur x)) else [])
-                 (c_vrfs c) id imp (snd p)); auto.
+                 (c_vrfs c) id imp (local_pfx p)); auto.
       cbn [snd]. unfold code_vrf, code_nhs. rewrite H1. destruct (eligs (d_l d')); auto.
     + destruct HC as [H1 H2]. unfold code_vrf, code_nhs. rewrite H1.
       destruct (eligs (d_l d)) eqn:E; auto. destruct (can_import imp (e_attr e)); auto.
@@ -435,6 +446,22 @@ Proof. destruct o; repeat constructor. Qed.
 Lemma nht_only_map_unreg l : nht_only (map Unreg l).
 Proof. induction l; cbn; constructor; auto. Qed.
 
+(* ---- deferral: the gate drops the FIB requests of a deferring family *)
+Lemma gate_off df p rq : memN (fst p) df = false -> gate df p rq = rq.
+Proof. unfold gate. intros ->. reflexivity. Qed.
+Lemma gate_nil df p : gate df p [] = [].
+Proof. unfold gate. destruct (memN (fst p) df); reflexivity. Qed.
+Lemma gate_on_nht df p rq : memN (fst p) df = true -> nht_only (gate df p rq).
+Proof.
+  unfold gate, nht_only. intros ->. apply Forall_forall. intros r Hr. apply filter_In in Hr.
+  destruct Hr as [_ Hr]. destruct r; cbn in *; auto; discriminate.
+Qed.
+Lemma gate_own df p q rq : Forall (own_req q) rq -> Forall (own_req q) (gate df p rq).
+Proof.
+  unfold gate. destruct (memN (fst p) df); auto. intro H. rewrite Forall_forall in *.
+  intros r Hr. apply filter_In in Hr. apply H. tauto.
+Qed.
+
 Record dstep_ok (fl fl' : flags) (p : prefix) (d : dest) (res : dest * list req) : Prop := {
   ds_own : Forall (own_req p) (snd res);
   ds_sorted : ssorted c fl (d_l d) -> ssorted c fl' (d_l (fst res));
@@ -497,29 +524,34 @@ Qed.
 
 
 (* ---- state-level invariant *)
-Record Inv' (ks : list prefix) (g : prefix -> dest) (fl : flags) (reqs : list req) : Prop := {
+Record Inv' (ks : list prefix) (g : prefix -> dest) (fl : flags) (df : list N) (reqs : list req) : Prop := {
   inv_sorted : forall p, ssorted c fl (d_l (g p));
   inv_nodup : NoDup ks;
   inv_keys : forall p, ~ In p ks -> d_l (g p) = [];
-  inv_main : forall p k valf, tracked p k valf -> fib_replay reqs k = valf fl (g p)
+  inv_main : forall p k valf, tracked p k valf -> kcond p k ks ->
+             fib_replay reqs k = if memN (fst p) df then [] else valf fl (g p)
 }.
-Definition Inv (s : st) (reqs : list req) : Prop := Inv' (s_keys s) (s_get s) (s_fl s) reqs.
+Definition Inv (s : st) (reqs : list req) : Prop := Inv' (s_keys s) (s_get s) (s_fl s) (s_def s) reqs.
 
 Lemma fold_flat_map_main (g : prefix -> list req) p k valf ks cur :
-  tracked p k valf ->
+  tracked p k valf -> kcond p k ks ->
   NoDup ks -> (forall q, Forall (own_req q) (g q)) ->
   fold_left (fib_step k) (flat_map g ks) cur =
   if existsb (pfx_eqb p) ks then fold_left (fib_step k) (g p) cur else cur.
 Proof.
-  intros HT ND HO. revert cur. induction ks as [|q t IH]; cbn [flat_map existsb]; auto.
+  intros HT HK0 ND HO. revert cur. induction ks as [|q t IH]; cbn [flat_map existsb]; auto.
   intro cur. inversion ND; subst. rewrite fold_fib_app.
+  assert (HKt : kcond p k t).
+  { destruct HK0 as [HK0|HK0]; [left; auto|right]. intros x Hx. apply HK0. cbn; auto. }
   destruct (pfx_eqb p q) eqn:E; cbn [orb].
   - apply pfx_eqb_eq in E. subst q. rewrite IH by auto.
     assert (existsb (pfx_eqb p) t = false) as ->; auto.
     apply not_true_iff_false. intro HE. apply existsb_exists in HE. destruct HE as [x [Hx HE]].
     apply pfx_eqb_eq in HE. subst. auto.
   - rewrite (fold_fib_foreign k q (g q)); auto.
-    intro HK. apply (tracked_inj p q k valf HT) in HK. subst. rewrite pfx_eqb_refl in E. discriminate.
+    intro HK. apply (tracked_inj p q k valf HT) in HK.
+    + subst. rewrite pfx_eqb_refl in E. discriminate.
+    + destruct HK0 as [HK0|HK0]; [left; auto|right]. intros; apply HK0; cbn; auto.
 Qed.
 
 Lemma valf_empty p k valf fl d : tracked p k valf -> d_l d = [] -> valf fl d = [].
@@ -536,15 +568,17 @@ Lemma sweep_inv s reqs fl' f :
   (forall q, d_l (s_get s q) = [] -> d_l (fst (f q (s_get s q))) = [] /\ snd (f q (s_get s q)) = []) ->
   Inv (fst (sweep s fl' f)) (reqs ++ snd (sweep s fl' f)).
 Proof.
-  intros [I1 I2 I3 I4] HD HE. unfold Inv, sweep. cbn [fst snd s_keys s_get s_fl].
+  intros [I1 I2 I3 I4] HD HE. unfold Inv, sweep. cbn [fst snd s_keys s_get s_fl s_def].
   constructor; auto.
   - intro p. apply (ds_sorted _ _ _ _ _ (HD p)). auto.
   - intros p Hp. apply HE. auto.
-  - intros p k valf HT. unfold fib_replay. rewrite fold_fib_app. fold (fib_replay reqs k). rewrite (I4 p k valf HT).
-    rewrite (fold_flat_map_main (fun q => snd (f q (s_get s q))) p k valf (s_keys s)); auto.
-    2:{ intro q. apply (ds_own _ _ _ _ _ (HD q)). }
+  - intros p k valf HT HK. unfold fib_replay. rewrite fold_fib_app. fold (fib_replay reqs k). rewrite (I4 p k valf HT HK).
+    rewrite (fold_flat_map_main (fun q => gate (s_def s) q (snd (f q (s_get s q)))) p k valf (s_keys s)); auto.
+    2:{ intro q. apply gate_own. apply (ds_own _ _ _ _ _ (HD q)). }
     destruct (existsb (pfx_eqb p) (s_keys s)) eqn:E.
-    + apply (ds_main _ _ _ _ _ (HD p)); auto.
+    + destruct (memN (fst p) (s_def s)) eqn:M.
+      * apply nht_only_fib. apply gate_on_nht; auto.
+      * rewrite gate_off by auto. apply (ds_main _ _ _ _ _ (HD p)); auto.
     + assert (Hp : ~ In p (s_keys s)).
       { intro Hin. assert (existsb (pfx_eqb p) (s_keys s) = true); try congruence.
         apply existsb_exists. exists p. split; auto. apply pfx_eqb_refl. }
@@ -567,24 +601,32 @@ Proof.
   - cbn. intuition.
 Qed.
 
-Lemma upd_inv ks g fl reqs p0 d' rq ks' :
-  Inv' ks g fl reqs ->
+Lemma upd_inv ks g fl df reqs p0 d' rq ks' :
+  Inv' ks g fl df reqs ->
   dstep_ok fl fl p0 (g p0) (d', rq) ->
   NoDup ks' -> (forall x, In x ks -> In x ks') ->
-  (~ In p0 ks' -> d_l d' = []) ->
-  Inv' ks' (upd p0 d' g) fl (reqs ++ rq).
+  (~ In p0 ks' -> d_l d' = []) -> (In p0 ks' \/ rq = []) ->
+  Inv' ks' (upd p0 d' g) fl df (reqs ++ gate df p0 rq).
 Proof.
-  intros [I1 I2 I3 I4] [D1 D2 D3] HN HS HE. cbn [fst snd] in *.
+  intros [I1 I2 I3 I4] [D1 D2 D3] HN HS HE HM. cbn [fst snd] in *.
   constructor; auto.
   - intro p. unfold upd. destruct (pfx_eqb p p0) eqn:E; auto.
   - intros p Hp. unfold upd. destruct (pfx_eqb p p0) eqn:E.
     + apply pfx_eqb_eq in E. subst. auto.
     + apply I3. auto.
-  - intros p k valf HT. unfold fib_replay. rewrite fold_fib_app. fold (fib_replay reqs k). rewrite (I4 p k valf HT).
+  - intros p k valf HT HK.
+    assert (HK' : kcond p k ks).
+    { destruct HK as [HK|HK]; [left; auto|right]. intros x Hx. apply HK. auto. }
+    unfold fib_replay. rewrite fold_fib_app. fold (fib_replay reqs k). rewrite (I4 p k valf HT HK').
     unfold upd. destruct (pfx_eqb p p0) eqn:E.
-    + apply pfx_eqb_eq in E. subst. auto.
-    + apply (fold_fib_foreign k p0); auto.
-      intro HK. apply (tracked_inj p p0 k valf HT) in HK. subst. rewrite pfx_eqb_refl in E. discriminate.
+    + apply pfx_eqb_eq in E. subst. destruct (memN (fst p0) df) eqn:M.
+      * apply nht_only_fib. apply gate_on_nht; auto.
+      * rewrite gate_off by auto. auto.
+    + destruct HM as [HM| ->]; [|rewrite gate_nil; reflexivity].
+      apply (fold_fib_foreign k p0); auto. 1: apply gate_own; auto.
+      intro HO. apply (tracked_inj p p0 k valf HT) in HO.
+      * subst. rewrite pfx_eqb_refl in E. discriminate.
+      * destruct HK as [HK|HK]; [left; auto|right]. apply HK. auto.
 Qed.
 
 
@@ -778,18 +820,36 @@ Proof.
   - intros q Hq. apply purge_empty; auto.
 Qed.
 
-Lemma step_inv s reqs o :
-  Inv s reqs -> Inv (fst (step c V s o)) (reqs ++ snd (step c V s o)).
+Lemma chg_some_tracked fl' p k valf d' x cur :
+  tracked p k valf -> ch_cur x = eligs (d_l d') -> ch_bc x || ch_ac x = true ->
+  fold_left (fib_step k) (distribute c V fl' p x) cur = valf fl' d'.
 Proof.
-  intro H. destruct o; cbn [step].
-  - (* Insert *)
+  intros [[-> ->]|[Hp [ND [id [imp [HI [Hid [-> ->]]]]]]]] H1 H2.
+  - rewrite distribute_fixed, H2. cbn [negb fold_left fib_step].
+    rewrite fkey_eqb_refl. destruct (is_vpn p); cbn [fold_left]; rewrite ?vrf_reqs_main;
+      unfold code_nhs; rewrite H1; auto.
+  - rewrite distribute_fixed, H2. cbn [negb fold_left fib_step].
+    assert (fkey_eqb (None, p) (Some id, local_pfx p) = false) as -> by reflexivity.
+    rewrite Hp.
+    unfold vrf_reqs.
+    rewrite (vrf_fold_present
+               (fun vr => if match ch_cur x with b :: _ => can_import (snd vr) (e_attr b) | [] => false end
+                          then nhs_of (ecmp_code c fl' (ch_cur x)) else [])
+               (c_vrfs c) id imp (local_pfx p)); auto.
+    cbn [snd]. unfold code_vrf, code_nhs. rewrite H1. destruct (eligs (d_l d')); auto.
+Qed.
+
+Lemma ins_inv s reqs peer sess p pid nh tok :
+  Inv s reqs -> Inv (fst (step_ins c V s peer sess p pid nh tok)) (reqs ++ snd (step_ins c V s peer sess p pid nh tok)).
+Proof.
+  intro H. unfold step_ins, step_ins_with.
     destruct (apply_import c (s_pol s) peer nh) as [filtered nh'].
     pose proof (do_insert_ok (s_fl s) (s_get s p) (peer, sess) pid nh' tok (attr_of c tok) filtered
                   (match oaddr nh' with Some a => memN a (s_inv s) | None => false end)) as HO.
     pose proof (do_insert_sorted (s_fl s) (s_get s p) (peer, sess) pid nh' tok (attr_of c tok) filtered
                   (match oaddr nh' with Some a => memN a (s_inv s) | None => false end)) as HS.
     destruct (do_insert c (s_fl s) (s_get s p) (peer, sess) pid nh' tok (attr_of c tok) filtered _) as [d' ch].
-    cbn [fst snd] in *. unfold Inv. cbn [s_keys s_get s_fl].
+    cbn [fst snd] in *. unfold Inv. cbn [s_keys s_get s_fl s_def].
     destruct H as [I1 I2 I3 I4].
     apply upd_inv with (ks := s_keys s); auto.
     + constructor; auto.
@@ -802,18 +862,75 @@ Proof.
     + apply add_key_nodup; auto.
     + intros x Hx. apply add_key_in. auto.
     + intro Hn. exfalso. apply Hn. apply add_key_in. auto.
+    + left. apply add_key_in. auto.
+Qed.
+
+Lemma memN_filter_neq a x l : memN x (filter (fun y => negb (y =? a)) l) = negb (x =? a) && memN x l.
+Proof.
+  unfold memN. induction l as [|y l IH]; cbn [filter existsb].
+  - rewrite andb_false_r. auto.
+  - destruct (y =? a) eqn:E; cbn [negb existsb]; rewrite IH.
+    + apply N.eqb_eq in E. subst. destruct (x =? a) eqn:E2; cbn; auto.
+    + destruct (x =? y) eqn:E2; cbn; auto. apply N.eqb_eq in E2. subst. rewrite E. auto.
+Qed.
+
+Lemma enddef_inv s reqs f :
+  Inv s reqs -> Inv (fst (step c V s (EndDef f))) (reqs ++ snd (step c V s (EndDef f))).
+Proof.
+  intros [I1 I2 I3 I4]. unfold Inv. cbn [step fst snd s_keys s_get s_fl s_def].
+  constructor; auto.
+  intros p k valf HT HK. unfold fib_replay. rewrite fold_fib_app. fold (fib_replay reqs k). rewrite (I4 p k valf HT HK).
+  rewrite (fold_flat_map_main _ p k valf (s_keys s)); auto.
+  2:{ intro q. destruct ((fst q =? f) && _); [apply distribute_own|constructor]. }
+  rewrite memN_filter_neq.
+  destruct (existsb (pfx_eqb p) (s_keys s)) eqn:E.
+  - destruct (fst p =? f) eqn:EF; cbn [andb negb].
+    + destruct (d_l (s_get s p)) eqn:EL; cbn [negb fold_left].
+      * rewrite (valf_empty p k valf); auto. destruct (memN (fst p) (s_def s)); auto.
+      * rewrite <- EL. apply chg_some_tracked; auto.
+    + cbn [fold_left]. auto.
+  - assert (Hp : ~ In p (s_keys s)).
+    { intro Hin. assert (existsb (pfx_eqb p) (s_keys s) = true); try congruence.
+      apply existsb_exists. exists p. split; auto. apply pfx_eqb_refl. }
+    rewrite (valf_empty p k valf) by auto.
+    destruct (memN (fst p) (s_def s)), (negb (fst p =? f)); auto.
+Qed.
+
+Lemma step_inv s reqs o :
+  op_ok s o ->
+  Inv s reqs -> Inv (fst (step c V s o)) (reqs ++ snd (step c V s o)).
+Proof.
+  intros HOK H. destruct o; cbn [step].
+  - apply ins_inv; auto.
+  - (* InsertLim *)
+    destruct (limit_refuses s peer p max cnt); [cbn [fst snd]; rewrite app_nil_r; auto | apply ins_inv; auto].
+  - (* StartDef *)
+    cbn [fst snd]. rewrite app_nil_r. destruct H as [I1 I2 I3 I4]. unfold Inv. cbn [s_keys s_get s_fl s_def].
+    constructor; auto. intros p k valf HT HK. rewrite (I4 p k valf HT HK).
+    cbn [memN existsb]. fold (memN (fst p) (s_def s)). destruct (fst p =? f) eqn:E; cbn [orb]; auto.
+    apply N.eqb_eq in E. rewrite (valf_empty p k valf); auto. destruct (memN (fst p) (s_def s)); auto.
+  - apply enddef_inv; auto.
   - (* Remove *)
     pose proof (do_remove_ok (s_fl s) (s_get s p) peer pid) as HO.
     pose proof (do_remove_sorted (s_fl s) (s_get s p) peer pid) as HS.
-    assert (HE : d_l (s_get s p) = [] -> d_l (fst (fst (do_remove (s_get s p) peer pid))) = []).
+    assert (HE : d_l (s_get s p) = [] -> d_l (fst (fst (do_remove (s_get s p) peer pid))) = [] /\
+                 snd (fst (do_remove (s_get s p) peer pid)) = None /\ snd (do_remove (s_get s p) peer pid) = None).
     { intro HH. unfold do_remove. rewrite HH. cbn. auto. }
     destruct (do_remove (s_get s p) peer pid) as [[d' ch] r].
-    cbn [fst snd] in *. unfold Inv. cbn [s_keys s_get s_fl].
+    cbn [fst snd] in *. unfold Inv. cbn [s_keys s_get s_fl s_def].
     destruct H as [I1 I2 I3 I4].
     apply upd_inv with (ks := s_keys s); auto.
     + constructor; auto.
     + apply (dstep_of_chg (s_fl s) (s_fl s) p (s_get s p) d' ch []); auto. constructor.
       destruct r; [|constructor]. destruct (peer =? 0); [constructor|apply nht_only_unreg].
+    + intro Hn. apply HE. apply I3. auto.
+    + assert (HIn : In p (s_keys s) \/ ~ In p (s_keys s)).
+      { destruct (existsb (pfx_eqb p) (s_keys s)) eqn:E.
+        - left. apply existsb_exists in E. destruct E as [x [Hx E]]. apply pfx_eqb_eq in E. subst; auto.
+        - right. intro Hc. assert (existsb (pfx_eqb p) (s_keys s) = true); try congruence.
+          apply existsb_exists. exists p. split; auto. apply pfx_eqb_refl. }
+      destruct HIn as [HIn|HIn]; [left; auto|right].
+      destruct (HE (I3 p HIn)) as [_ [-> ->]]. reflexivity.
   - apply Inv_purge; auto.
   - (* MarkStale *)
     apply sweep_inv; auto.
@@ -854,25 +971,30 @@ Proof.
   intros p k valf HT. symmetry. apply (valf_empty p k valf); auto.
 Qed.
 
-Lemma run_inv ops : forall s reqs, Inv s reqs ->
+Lemma run_inv ops : forall s reqs, run_ok c V s ops -> Inv s reqs ->
   Inv (fst (run c V s ops)) (reqs ++ snd (run c V s ops)).
 Proof.
-  induction ops as [|o t IH]; intros s reqs H; cbn [run].
+  induction ops as [|o t IH]; intros s reqs HR H; cbn [run].
   - cbn. rewrite app_nil_r. auto.
-  - pose proof (step_inv s reqs o H) as H1. destruct (step c V s o) as [s1 r1].
-    cbn [fst snd] in H1. specialize (IH s1 (reqs ++ r1) H1).
+  - destruct HR as [HR1 HR2].
+    pose proof (step_inv s reqs o HR1 H) as H1. destruct (step c V s o) as [s1 r1].
+    cbn [fst snd] in H1, HR2. specialize (IH s1 (reqs ++ r1) HR2 H1).
     destruct (run c V s1 t) as [s2 r2]. cbn [fst snd] in *. rewrite app_assoc. auto.
 Qed.
 
 (* C20 (1), main table: after any history the replayed FIB entry of every
    prefix is the next-hop list of the ECMP set demanded by the Spec *)
 Theorem C20_fib_replay_eq_ecmp_of_best : forall (ops : list op) (p : prefix),
+  run_ok c Fixed st0 ops ->
   let s := fst (run c Fixed st0 ops) in
   let reqs := snd (run c Fixed st0 ops) in
-  fib_replay reqs (None, p) = fib_spec c (s_fl s) (d_l (s_get s p)).
+  fib_replay reqs (None, p) =
+  if memN (fst p) (s_def s) then [] else fib_spec c (s_fl s) (d_l (s_get s p)).
 Proof.
-  intros ops p. cbn zeta. pose proof (run_inv ops st0 [] Inv0) as H. cbn [app] in H.
-  destruct H as [I1 I2 I3 I4]. rewrite (I4 p (None, p) code_nhs) by (left; auto). unfold code_nhs, fib_spec.
+  intros ops p HR. cbn zeta. pose proof (run_inv ops st0 [] HR Inv0) as H. cbn [app] in H.
+  destruct H as [I1 I2 I3 I4].
+  rewrite (I4 p (None, p) code_nhs (or_introl (conj eq_refl eq_refl)) (or_introl eq_refl)).
+  destruct (memN (fst p) (s_def (fst (run c V st0 ops)))); auto. unfold code_nhs, fib_spec.
   change (selectable (d_l (s_get (fst (run c V st0 ops)) p))) with (eligs (d_l (s_get (fst (run c V st0 ops)) p))).
   rewrite ecmp_code_spec; auto. apply ssorted_filter. auto.
 Qed.
@@ -880,23 +1002,39 @@ Qed.
 
 (* C20 (1), VRF tables: for a VPN prefix, every VRF with a kernel table holds the
    same next-hop list when its import targets match the best path, nothing otherwise;
-   the best path used is a best path of the Spec (rank-first selectable path) *)
-Theorem C20_vrf_fib_replay_eq_ecmp_of_best : forall (ops : list op) (i id : N) (imp : list N),
+   the best path used is a best path of the Spec (rank-first selectable path).
+   Outside the known class C20-3: no other VPN prefix (another route distinguisher)
+   with the same VRF-local prefix has been seen. *)
+Definition Known_C20_3 (p : prefix) (ks : list prefix) : Prop := ~ uniq p ks.
+
+Theorem C20_vrf_fib_replay_eq_ecmp_of_best_outside_known :
+  forall (ops : list op) (p : prefix) (id : N) (imp : list N),
+  is_vpn p = true ->
   NoDup (map fst (c_vrfs c)) -> In (id, imp) (c_vrfs c) -> id <> 0 ->
+  run_ok c Fixed st0 ops ->
   let s := fst (run c Fixed st0 ops) in
   let reqs := snd (run c Fixed st0 ops) in
-  let l := d_l (s_get s (1, i)) in
-  fib_replay reqs (Some id, (2, i)) = vrf_spec c (s_fl s) imp l (hd_error (selectable l)) /\
+  let l := d_l (s_get s p) in
+  ~ Known_C20_3 p (s_keys s) ->
+  fib_replay reqs (Some id, local_pfx p) =
+    (if memN (fst p) (s_def s) then [] else vrf_spec c (s_fl s) imp l (hd_error (selectable l))) /\
   (forall b, hd_error (selectable l) = Some b -> is_best c (s_fl s) l b).
 Proof.
-  intros ops i id imp ND HI Hid. cbn zeta. pose proof (run_inv ops st0 [] Inv0) as H. cbn [app] in H.
+  intros ops p id imp Hv ND HI Hid HR. cbn zeta. intro HK.
+  assert (HU : uniq p (s_keys (fst (run c V st0 ops)))).
+  { intros q Hq Hvq HL. destruct (pfx_eqb q p) eqn:E.
+    - apply pfx_eqb_eq; auto.
+    - exfalso. apply HK. intro HU. specialize (HU q Hq Hvq HL). subst. rewrite pfx_eqb_refl in E. discriminate. }
+  pose proof (run_inv ops st0 [] HR Inv0) as H. cbn [app] in H.
   destruct H as [I1 I2 I3 I4]. split.
-  - rewrite (I4 (1, i) (Some id, (2, i)) (fun fl d => code_vrf fl imp d)).
-    2:{ right. cbn [fst snd]. split; auto. split; auto. exists id, imp. auto. }
+  - rewrite (I4 p (Some id, local_pfx p) (fun fl d => code_vrf fl imp d)).
+    2:{ right. split; auto. split; auto. exists id, imp. auto. }
+    2:{ right. auto. }
+    destruct (memN (fst p) (s_def (fst (run c V st0 ops)))); auto.
     unfold code_vrf, vrf_spec, fib_spec, code_nhs.
-    change (selectable (d_l (s_get (fst (run c V st0 ops)) (1, i))))
-      with (eligs (d_l (s_get (fst (run c V st0 ops)) (1, i)))).
-    destruct (eligs (d_l (s_get (fst (run c V st0 ops)) (1, i)))) as [|b t] eqn:E; auto.
+    change (selectable (d_l (s_get (fst (run c V st0 ops)) p)))
+      with (eligs (d_l (s_get (fst (run c V st0 ops)) p))).
+    destruct (eligs (d_l (s_get (fst (run c V st0 ops)) p))) as [|b t] eqn:E; auto.
     cbn [hd_error]. destruct (can_import imp (e_attr b)); auto.
     rewrite <- E. rewrite ecmp_code_spec; auto. apply ssorted_filter. auto.
   - intros b Hb. apply head_is_best; auto.
@@ -948,14 +1086,7 @@ Qed.
 
 Definition InvF (s : st) : Prop := forall p, Forall (inv_ok (s_inv s)) (d_l (s_get s p)).
 
-Lemma memN_filter_neq a x l : memN x (filter (fun y => negb (y =? a)) l) = negb (x =? a) && memN x l.
-Proof.
-  unfold memN. induction l as [|y l IH]; cbn [filter existsb].
-  - rewrite andb_false_r. auto.
-  - destruct (y =? a) eqn:E; cbn [negb existsb]; rewrite IH.
-    + apply N.eqb_eq in E. subst. destruct (x =? a) eqn:E2; cbn; auto.
-    + destruct (x =? y) eqn:E2; cbn; auto. apply N.eqb_eq in E2. subst. rewrite E. auto.
-Qed.
+
 
 Definition inv_after (inv : list N) (a : N) (reachable : bool) : list N :=
   if reachable then filter (fun x => negb (x =? a)) inv
@@ -1030,13 +1161,22 @@ Proof.
   apply Forall_sub with (l := d_l (s_get s p)); [|apply H]. intros x Hx. apply isort_in in Hx. auto.
 Qed.
 
-Lemma step_invF s o : InvF s -> InvF (fst (step c V s o)).
+Lemma ins_invF s peer sess p pid nh tok : InvF s -> InvF (fst (step_ins c V s peer sess p pid nh tok)).
 Proof.
-  intro H. destruct o; cbn [step].
-  - destruct (apply_import c (s_pol s) peer nh) as [filtered nh'].
+  intro H. unfold step_ins, step_ins_with.
+    destruct (apply_import c (s_pol s) peer nh) as [filtered nh'].
     pose proof (do_insert_invok (s_fl s) (s_get s p) (peer, sess) pid nh' tok (attr_of c tok) filtered (s_inv s) (H p)) as HI.
     destruct (do_insert c (s_fl s) (s_get s p) (peer, sess) pid nh' tok (attr_of c tok) filtered _) as [d' ch].
     cbn [fst] in *. intro q. cbn [s_get s_inv]. unfold upd. destruct (pfx_eqb q p); auto.
+Qed.
+
+Lemma step_invF s o : InvF s -> InvF (fst (step c V s o)).
+Proof.
+  intro H. destruct o; cbn [step].
+  - apply ins_invF; auto.
+  - destruct (limit_refuses s peer p max cnt); [exact H | apply ins_invF; auto].
+  - exact H.
+  - exact H.
   - pose proof (do_remove_in (s_get s p) peer pid) as HI.
     destruct (do_remove (s_get s p) peer pid) as [[d' ch] r]. cbn [fst] in *.
     intro q. cbn [s_get s_inv]. unfold upd. destruct (pfx_eqb q p); auto.
@@ -1066,9 +1206,12 @@ Lemma step_sinv s o a :
   | _ => memN a (s_inv s)
   end.
 Proof.
+  assert (HI : forall peer sess p pid nh tok, s_inv (fst (step_ins c V s peer sess p pid nh tok)) = s_inv s).
+  { intros. unfold step_ins, step_ins_with. destruct (apply_import c (s_pol s) peer nh) as [filtered nh'].
+    destruct (do_insert c _ _ _ _ _ _ _ _ _) as [d' ch]. reflexivity. }
   destruct o; cbn [step]; try reflexivity.
-  - destruct (apply_import c (s_pol s) peer nh) as [filtered nh'].
-    destruct (do_insert c _ _ _ _ _ _ _ _ _) as [d' ch]. reflexivity.
+  - rewrite HI. reflexivity.
+  - destruct (limit_refuses s peer p max cnt); [reflexivity | rewrite HI; reflexivity].
   - destruct (do_remove (s_get s p) peer pid) as [[d' ch] r]. reflexivity.
   - unfold sweep. cbn [fst s_inv]. apply (memN_inv_after (s_inv s) a0 reachable a).
 Qed.
@@ -1130,7 +1273,7 @@ Lemma distribute_opt_apply_only fl p ch : apply_only (distribute_opt c V fl p ch
 Proof.
   destruct ch as [x|]; cbn; [|constructor]. rewrite distribute_fixed.
   destruct (negb _); [constructor|]. cbn zeta. constructor; auto.
-  destruct (fst p =? 1); [|constructor]. unfold vrf_reqs. apply Forall_forall. intros r Hr.
+  destruct (is_vpn p); [|constructor]. unfold vrf_reqs. apply Forall_forall. intros r Hr.
   apply in_flat_map in Hr. destruct Hr as [vr [_ Hr]]. destruct (fst vr =? 0); cbn in Hr; try tauto.
   destruct Hr as [<-|[]]. exact I.
 Qed.
@@ -1174,6 +1317,13 @@ Proof.
 Qed.
 
 (* a per-destination step keeps the count in step *)
+Lemma ref_fold_gate a df p rq n : ref_fold a (gate df p rq) n = ref_fold a rq n.
+Proof.
+  unfold gate. destruct (memN (fst p) df); auto. revert n.
+  induction rq as [|r rq IH]; intro n; cbn [filter]; auto.
+  destruct r; cbn [is_apply negb]; unfold ref_fold in *; cbn [fold_left]; rewrite IH; auto.
+Qed.
+
 Definition ref_ok (a : N) (d : dest) (res : dest * list req) : Prop :=
   forall n, cnt a (d_l d) <= n ->
     ref_fold a (snd res) n = n - cnt a (d_l d) + cnt a (d_l (fst res)).
@@ -1396,7 +1546,11 @@ Proof.
   intros [R1 R2 R3] HR HE. unfold sweep. constructor; cbn [fst snd s_keys s_get]; auto.
   intro a. unfold ref_replay. rewrite fold_left_app. fold (ref_replay reqs a). rewrite R3.
   rewrite !paths_using_total. cbn [s_get s_keys].
-  pose proof (sweep_ref a (s_get s) f (s_keys s) (HR a) 0) as H. rewrite !N.add_0_l in H. exact H.
+  pose proof (sweep_ref a (s_get s) (fun q d => (fst (f q d), gate (s_def s) q (snd (f q d)))) (s_keys s)) as H.
+  cbn [fst snd] in H. rewrite <- (N.add_0_l (total a (s_get s) (s_keys s))).
+  change (fold_left (ref_step a)) with (ref_fold a). rewrite H.
+  - rewrite N.add_0_l. reflexivity.
+  - intros q n Hn. cbn [fst snd]. rewrite ref_fold_gate. apply HR; auto.
 Qed.
 
 Lemma in_dec_keys (p0 : prefix) (ks : list prefix) : In p0 ks \/ ~ In p0 ks.
@@ -1487,11 +1641,10 @@ Proof.
   - intros q Hq. apply llgr_empty; auto.
 Qed.
 
-Lemma step_invR s reqs o :
-  wf_op o = true -> InvR s reqs -> InvR (fst (step c V s o)) (reqs ++ snd (step c V s o)).
+Lemma ins_invR s reqs peer sess p pid nh tok :
+  InvR s reqs -> InvR (fst (step_ins c V s peer sess p pid nh tok)) (reqs ++ snd (step_ins c V s peer sess p pid nh tok)).
 Proof.
-  intros HW H. destruct o; cbn [step wf_op] in *.
-  - (* Insert *)
+  intro H. unfold step_ins, step_ins_with.
     destruct (apply_import c (s_pol s) peer nh) as [filtered nh'].
     pose proof (fun a => proj2 (do_insert_ref (s_fl s) (s_get s p) peer sess pid nh' tok (attr_of c tok) filtered
                   (match oaddr nh' with Some a => memN a (s_inv s) | None => false end) a)) as HR.
@@ -1502,13 +1655,29 @@ Proof.
     + intros q Hq. unfold upd. destruct (pfx_eqb q p) eqn:E.
       * apply pfx_eqb_eq in E. subst. exfalso. apply Hq. apply add_key_in. auto.
       * apply R2. intro. apply Hq. apply add_key_in. auto.
-    + intro a. unfold ref_replay. rewrite !fold_left_app. fold (ref_replay reqs a). rewrite R3.
-      change (fold_left (ref_step a)) with (ref_fold a).
+    + intro a. unfold ref_replay. rewrite fold_left_app. fold (ref_replay reqs a). rewrite R3.
+      change (fold_left (ref_step a)) with (ref_fold a). rewrite ref_fold_gate, !ref_fold_app.
       rewrite (apply_only_ref a (distribute_opt c V (s_fl s) p ch)) by apply distribute_opt_apply_only.
       rewrite !paths_using_total. cbn [s_keys s_get].
       pose proof (cnt_le_total a (s_get s) (s_keys s) p R2) as HL.
       specialize (HR a _ HL). cbn [fst snd] in HR. rewrite HR.
       pose proof (total_add_key a (s_get s) p d' (s_keys s) R1 (R2 p)) as HT. lia.
+Qed.
+
+Lemma step_invR s reqs o :
+  wf_op o = true -> InvR s reqs -> InvR (fst (step c V s o)) (reqs ++ snd (step c V s o)).
+Proof.
+  intros HW H. destruct o; cbn [step wf_op] in *.
+  - apply ins_invR; auto.
+  - destruct (limit_refuses s peer p max _); [cbn [fst snd]; rewrite app_nil_r; auto | apply ins_invR; auto].
+  - cbn [fst snd]. rewrite app_nil_r. destruct H as [R1 R2 R3]. constructor; auto.
+  - destruct H as [R1 R2 R3]. constructor; cbn [fst snd s_keys s_get]; auto.
+    intro a. unfold ref_replay. rewrite fold_left_app. fold (ref_replay reqs a). rewrite R3.
+    change (fold_left (ref_step a)) with (ref_fold a). rewrite apply_only_ref; auto.
+    apply Forall_forall. intros r Hr. apply in_flat_map in Hr. destruct Hr as [q [_ Hr]].
+    destruct ((fst q =? f) && _); [|destruct Hr].
+    pose proof (distribute_opt_apply_only (s_fl s) q (Some {| ch_bc := true; ch_ac := true; ch_cur := eligs (d_l (s_get s q)) |})) as HA.
+    unfold apply_only in HA. rewrite Forall_forall in HA. apply HA. exact Hr.
   - (* Remove *)
     pose proof (fun a => do_remove_ref (s_get s p) peer pid a) as HR.
     assert (HE : d_l (s_get s p) = [] -> d_l (fst (fst (do_remove (s_get s p) peer pid))) = []).
@@ -1517,8 +1686,8 @@ Proof.
     destruct H as [R1 R2 R3]. constructor; cbn [s_keys s_get]; auto.
     + intros q Hq. unfold upd. destruct (pfx_eqb q p) eqn:E; auto.
       apply pfx_eqb_eq in E. subst. auto.
-    + intro a. unfold ref_replay. rewrite !fold_left_app. fold (ref_replay reqs a). rewrite R3.
-      change (fold_left (ref_step a)) with (ref_fold a).
+    + intro a. unfold ref_replay. rewrite fold_left_app. fold (ref_replay reqs a). rewrite R3.
+      change (fold_left (ref_step a)) with (ref_fold a). rewrite ref_fold_gate, !ref_fold_app.
       rewrite (apply_only_ref a (distribute_opt c V (s_fl s) p ch)) by apply distribute_opt_apply_only.
       rewrite !paths_using_total. cbn [s_keys s_get].
       pose proof (cnt_le_total a (s_get s) (s_keys s) p R2) as HL.
@@ -1604,7 +1773,7 @@ Proof. reflexivity. Qed.
    statements; replayed on the unfixed code through the harness these were the
    findings C20-1 and C20-2 (corpus/C20/).  And non-vacuity examples. *)
 Definition ex_attr (pref : N) (rts : list N) : attr :=
-  {| a_pref := pref; a_llgrc := false; a_nollgr := false; a_rts := rts |}.
+  {| a_pref := pref; a_llgrc := false; a_nollgr := false; a_rts := rts; a_clen := 0; a_oid := None |}.
 Definition ex_cfg : cfg :=
   {| c_peers := [(1, (1, false)); (2, (2, false)); (3, (3, false))];
      c_attrs := [(0, ex_attr 1 [1]); (1, ex_attr 0 [2]); (2, ex_attr 1 [1])];
@@ -1655,6 +1824,46 @@ Example ex_vrf_fixed :
   vrf_spec ex_cfg (s_fl s) [2] l (hd_error (selectable l)) = [2].
 Proof. vm_compute. auto. Qed.
 
+(* C20-3 (open): the VRF table is keyed by the prefix with the route distinguisher
+   stripped, so two VPN prefixes that differ only in the RD share one VRF entry;
+   withdrawing one of them empties the entry although the other is still importable *)
+Definition ex_ops_rd : list op :=
+  [Insert 1 0 (1, 1) 0 (Some (NhV4 1)) 0; Insert 2 0 (1, 11) 0 (Some (NhV4 2)) 0; Remove 2 0 (1, 11) 0].
+
+Lemma C20_vrf_fib_replay_eq_ecmp_of_best_refuted :
+  exists (c : cfg) (ops : list op) (p : prefix) (id : N) (imp : list N),
+    is_vpn p = true /\ NoDup (map fst (c_vrfs c)) /\ In (id, imp) (c_vrfs c) /\ id <> 0 /\
+    run_ok c Fixed st0 ops /\
+    let s := fst (run c Fixed st0 ops) in
+    let l := d_l (s_get s p) in
+    Known_C20_3 p (s_keys s) /\
+    fib_replay (snd (run c Fixed st0 ops)) (Some id, local_pfx p) <>
+    (if memN (fst p) (s_def s) then [] else vrf_spec c (s_fl s) imp l (hd_error (selectable l))).
+Proof.
+  exists ex_cfg, ex_ops_rd, (1, 1), 5, [1]. split; [reflexivity|]. split; [|split; [|split; [|split; [|split]]]].
+  - cbn. repeat constructor; cbn; intuition discriminate.
+  - cbn. auto.
+  - discriminate.
+  - cbn [ex_ops_rd run_ok op_ok]. tauto.
+  - intro HU. specialize (HU (1, 11)). cbn in HU.
+    assert (HH : (1, 11) = (1, 1)) by (apply HU; auto). discriminate HH.
+  - vm_compute. discriminate.
+Qed.
+
+Example ex_rd_values :
+  let s := fst (run ex_cfg Fixed st0 ex_ops_rd) in
+  fib_replay (snd (run ex_cfg Fixed st0 ex_ops_rd)) (Some 5, (2, 1)) = [] /\
+  vrf_spec ex_cfg (s_fl s) [1] (d_l (s_get s (1, 1))) (hd_error (selectable (d_l (s_get s (1, 1))))) = [1].
+Proof. vm_compute. auto. Qed.
+
+Example ex_uniq_nonvacuous :
+  ~ Known_C20_3 (1, 1) (s_keys (fst (run ex_cfg Fixed st0 ex_ops_vrf))) /\
+  ~ Known_C20_3 (4, 2) [(4, 2); (1, 2); (3, 2); (4, 3)].
+Proof.
+  split; intro H; apply H; intros q Hq Hv HL; cbn in Hq;
+    repeat (destruct Hq as [<-|Hq]; [try reflexivity; try discriminate Hv; try discriminate HL|]); try tauto.
+Qed.
+
 (* non-vacuity of the hypotheses and of the interesting branches *)
 Definition ex_ops_long : list op :=
   [Insert 1 0 (0, 1) 0 (Some (NhV4 1)) 0; Insert 2 0 (0, 1) 0 (Some (NhV4 2)) 2; Insert 3 0 (0, 1) 1 (Some (NhV4 1)) 0;
@@ -1695,3 +1904,81 @@ Proof. vm_compute. auto. Qed.
 Example ex_vrf_hyps : NoDup (map fst (c_vrfs ex_cfg)) /\ In (5, [1]) (c_vrfs ex_cfg).
 Proof. split. cbn. repeat constructor; cbn; intuition discriminate. cbn. auto. Qed.
 
+(* deferral: the hypothesis [run_ok] is met by histories that start the deferral of a
+   family on an empty table; nothing is installed while it lasts, everything at its end *)
+Definition ex_ops_def : list op :=
+  [StartDef 0; Insert 1 0 (0, 1) 0 (Some (NhV4 1)) 0; Insert 2 0 (0, 1) 0 (Some (NhV4 2)) 2;
+   Insert 1 0 (3, 1) 0 (Some (NhV6 101)) 0].
+Example ex_def_run_ok : run_ok ex_cfg Fixed st0 (ex_ops_def ++ [EndDef 0]) /\ run_ok ex_cfg Fixed st0 ex_ops_long.
+Proof.
+  split.
+  - split; [intros p _; reflexivity|]. cbn [ex_ops_def app run_ok op_ok]. tauto.
+  - cbn [ex_ops_long run_ok op_ok]. tauto.
+Qed.
+Example ex_def_values :
+  let r1 := run ex_cfg Fixed st0 ex_ops_def in
+  let r2 := run ex_cfg Fixed st0 (ex_ops_def ++ [EndDef 0]) in
+  s_def (fst r1) = [0] /\ fib_replay (snd r1) (None, (0, 1)) = [] /\ fib_replay (snd r1) (None, (3, 1)) = [101] /\
+  ref_replay (snd r1) 1 = 1 /\
+  s_def (fst r2) = [] /\ fib_replay (snd r2) (None, (0, 1)) = [1; 2].
+Proof. vm_compute. repeat split; reflexivity. Qed.
+(* the prefix-limit test: refused for a new prefix at the limit, accepted for a known one *)
+Example ex_limit_values :
+  let ops := [InsertLim 1 0 (0, 1) 0 (Some (NhV4 1)) 0 1 1; InsertLim 2 0 (0, 1) 0 (Some (NhV4 2)) 0 1 0;
+              InsertLim 2 0 (0, 1) 0 (Some (NhV4 3)) 0 1 1] in
+  let r := run ex_cfg Fixed st0 ops in
+  length (d_l (s_get (fst r) (0, 1))) = 1%nat /\ fib_replay (snd r) (None, (0, 1)) = [3] /\
+  ref_replay (snd r) 1 = 0 /\ ref_replay (snd r) 2 = 0 /\ ref_replay (snd r) 3 = 1.
+Proof. vm_compute. repeat split; reflexivity. Qed.
+
+(* ---- finding C20-4: insert_route racing a reachability report.  Since the fix the
+   unreachable set is read inside the shard lock: an insert that takes the lock after
+   the reports [mids] of another thread were applied is the insert of the sequential
+   history [pre ++ mids ++ [Insert ...]], to which the theorems above apply. *)
+Lemma C20_insert_race_is_sequential : forall (c : cfg) (pre mids : list op) peer sess p pid nh tok,
+  let s1 := fst (run c Fixed st0 (pre ++ mids)) in
+  step_ins_with c Fixed s1 (s_inv s1) peer sess p pid nh tok = step c Fixed s1 (Insert peer sess p pid nh tok).
+Proof. reflexivity. Qed.
+
+Lemma run_app c v ops1 : forall s ops2,
+  run c v s (ops1 ++ ops2) =
+  let '(s1, r1) := run c v s ops1 in let '(s2, r2) := run c v s1 ops2 in (s2, r1 ++ r2).
+Proof.
+  induction ops1 as [|o t IH]; intros s ops2; cbn [app run].
+  - destruct (run c v s ops2). reflexivity.
+  - destruct (step c v s o) as [s1 r1]. rewrite IH. destruct (run c v s1 t) as [s2 r2].
+    destruct (run c v s2 ops2) as [s3 r3]. rewrite app_assoc. reflexivity.
+Qed.
+
+(* the observation the harness compares (Model run_race, late read) is the one of that history *)
+Lemma C20_run_race_late_eq : forall (c : cfg) (pre mids : list op) peer sess p pid nh tok,
+  run_race false c pre peer sess p pid nh tok mids =
+  let '(s0, _) := run c Fixed st0 pre in
+  let '(s2, r) := run c Fixed s0 (mids ++ [Insert peer sess p pid nh tok]) in
+  VL (observe c Fixed st0 pre ++ [VL [VList v_req r; v_view s2]]).
+Proof.
+  intros. unfold run_race. destruct (run c Fixed st0 pre) as [s0 r0]. rewrite run_app.
+  destruct (run c Fixed s0 mids) as [s1 r1]. cbn [run step]. unfold step_ins.
+  destruct (step_ins_with c Fixed s1 (s_inv s1) peer sess p pid nh tok) as [s2 r2]. rewrite app_nil_r. reflexivity.
+Qed.
+
+(* with the early read (the code before the fix) clause (3) fails: the path inserted while
+   the report was being applied stays selectable although its next hop is unreachable *)
+Definition early_state (c : cfg) (pre mids : list op) peer sess p pid nh tok : st :=
+  let s0 := fst (run c Fixed st0 pre) in
+  let s1 := fst (run c Fixed s0 mids) in
+  fst (step_ins_with c Fixed s1 (s_inv s0) peer sess p pid nh tok).
+Lemma C20_unreachable_nexthop_excluded_early_read_refuted :
+  exists (c : cfg) (pre mids : list op) peer sess p pid nh tok (e : entry) (a : N),
+    let s := early_state c pre mids peer sess p pid nh tok in
+    let l := d_l (s_get s p) in
+    In e l /\ e_nh e = Some a /\
+    unreachable_after (pre ++ mids ++ [Insert peer sess p pid nh tok]) a false = true /\ In e (selectable l).
+Proof.
+  exists ex_cfg, [], [NhValidity 1 false], 1, 0, (0, 1), 0, (Some (NhV4 1)), 0.
+  eexists. exists 1. cbn zeta. vm_compute. split; [left; reflexivity|]. repeat split; auto.
+Qed.
+Example ex_race_late_excluded :
+  let s := fst (run ex_cfg Fixed st0 ([NhValidity 1 false] ++ [Insert 1 0 (0, 1) 0 (Some (NhV4 1)) 0])) in
+  length (d_l (s_get s (0, 1))) = 1%nat /\ selectable (d_l (s_get s (0, 1))) = [].
+Proof. vm_compute. auto. Qed.
